@@ -275,24 +275,27 @@ Proof.
   eexists. eexists. split; vm_compute; reflexivity.
 Qed.
 
-(* (c) Blockchain.last_block_id / last_block_hash are only raised, never restored:
-   after a reorganisation attempt that wound part of a longer candidate chain and
-   failed, they keep naming a block of the abandoned chain, also after the next
-   successful extension of the restored chain *)
+(* (c) regression example for the repaired defect (last_block_id / last_block_hash used to
+   be only raised, never restored): a reorganisation attempt winds 12, 13, 14 of a longer
+   candidate chain and fails at 15; FinishWithFailure now points last_block_* at the tip
+   again, and they follow the next extension of the restored chain *)
 Definition wit_last_U : list blk :=
   [wB 1 0 1 10 true true; wB 2 1 2 10 true true; wB 3 2 3 10 true true;
    wB 12 1 2 1 true true; wB 13 12 3 1 true true; wB 14 13 4 1 true true; wB 15 14 5 100 true false;
    wB 4 3 4 10 true true].
 
-Lemma last_hash_stale_witness :
-  exists st,
+Lemma last_is_tip_example :
+  exists st7 st,
     history_check wit_cfg wit_last_U (hashes wit_last_U) = true
+    /\ deliver wit_cfg (init wit_cfg) (firstn 7 wit_last_U) = Ok st7
+    /\ latest_id st7 = Ok 3 /\ latest_hash st7 = Ok 3 /\ last_id st7 = 3 /\ last_hash st7 = 3
+    /\ wsteps st7 = 11
     /\ deliver wit_cfg (init wit_cfg) wit_last_U = Ok st
     /\ latest_id st = Ok 4 /\ latest_hash st = Ok 4
-    /\ last_id st = 4 /\ last_hash st = 14.
+    /\ last_id st = 4 /\ last_hash st = 4.
 Proof.
-  eexists. split; [vm_compute; reflexivity|]. split; [vm_compute; reflexivity|].
-  repeat split; vm_compute; reflexivity.
+  eexists. eexists. split; [vm_compute; reflexivity|]. split; [vm_compute; reflexivity|].
+  repeat (split; [vm_compute; reflexivity|]). vm_compute; reflexivity.
 Qed.
 
 (* ------------------------------------------------------------------ *)
